@@ -256,6 +256,8 @@ def run(chk):
     from props import c13
     for (sig, what, rep) in c13.rx_queue_cases(chk, chk.rng, chk.tier, 'C18'):
         chk.violation(sig, what, rep)
+    for (sig, what, rep) in c13.tx_queue_cases(chk, chk.rng, chk.tier, 'C18'):
+        chk.violation(sig, what, rep)
     chk.assumptions += ['conformance is to a transcription of dbus-python marshalling rules (the library is absent from the sandbox)',
                         'bp.cla adaptor upcalls are covered by the correspondence of the UDPCL/BTP-U checks (C13, C20)']
 
